@@ -104,6 +104,101 @@ func sStructural(x *vc.Exec, lr *vc.LoadResult, frames []vc.FrameDecl, res *vc.P
 			}
 		}
 	}
+	// Where the scheduler may block (C05, C06, C09): every blocking channel
+	// operation of the package - send, receive (also the receive of a range over
+	// a channel), blocking select - is declared in the contract file, per root
+	// function and in source order. An operation that is not declared is a place
+	// where the Scheduler Loop, Wait, Enqueue or a worker can be held up that the
+	// termination / promptness arguments do not account for.
+	blocking := map[string]vc.FrameDecl{}
+	for _, fd := range frames {
+		if fd.Kind == "blocking" {
+			blocking[fmt.Sprintf("%s #%d", fd.Func, fd.Ordinal)] = fd
+		}
+	}
+	usedBlocking := map[string]bool{}
+	type bop struct {
+		in   ssa.Instruction
+		desc string
+	}
+	byRoot := map[string][]bop{}
+	chanName := func(v ssa.Value) string {
+		for {
+			switch t := v.(type) {
+			case *ssa.UnOp:
+				if t.Op == token.MUL {
+					v = t.X
+					continue
+				}
+			case *ssa.FieldAddr:
+				return ssaStructField(t)
+			case *ssa.Parameter:
+				return t.Name()
+			case *ssa.FreeVar:
+				return t.Name()
+			case *ssa.Alloc:
+				return t.Comment
+			case *ssa.ChangeType:
+				v = t.X
+				continue
+			case *ssa.Phi:
+				return t.Comment
+			}
+			return "?"
+		}
+	}
+	for _, fn := range fns {
+		root := funcRoot(fn).Name()
+		if strings.HasSuffix(fset.Position(fn.Pos()).Filename, "_test.go") {
+			continue
+		}
+		for _, b := range fn.Blocks {
+			for _, in := range b.Instrs {
+				switch in := in.(type) {
+				case *ssa.Send:
+					byRoot[root] = append(byRoot[root], bop{in, "send-" + chanName(in.Chan)})
+				case *ssa.UnOp:
+					if in.Op == token.ARROW {
+						byRoot[root] = append(byRoot[root], bop{in, "recv-" + chanName(in.X)})
+					}
+				case *ssa.Select:
+					if in.Blocking {
+						byRoot[root] = append(byRoot[root], bop{in, "select"})
+					}
+				}
+			}
+		}
+	}
+	var roots []string
+	for r := range byRoot {
+		roots = append(roots, r)
+	}
+	sort.Strings(roots)
+	nBlocking := 0
+	for _, r := range roots {
+		ops := byRoot[r]
+		sort.SliceStable(ops, func(i, j int) bool { return ops[i].in.Pos() < ops[j].in.Pos() })
+		for i, op := range ops {
+			nBlocking++
+			key := fmt.Sprintf("scheduler.%s #%d", r, i+1)
+			fd, ok := blocking[key]
+			usedBlocking[key] = true
+			good := ok && fd.Why == op.desc
+			why := fmt.Sprintf("%s at %s", op.desc, pos(op.in))
+			if !ok {
+				why = "undeclared blocking operation: " + why
+			} else if !good {
+				why = fmt.Sprintf("declared %s, found %s", fd.Why, why)
+			}
+			sink.Structural("scheduler."+r, "frame", fmt.Sprintf("blocking-operation-%d-is-the-declared-one", i+1), []string{"C05", "C06", "C09"}, good, why)
+		}
+	}
+	for key := range blocking {
+		if !usedBlocking[key] {
+			res.Stale = append(res.Stale, "frame blocking "+key)
+		}
+	}
+	sink.Structural("scheduler", "frame", "blocking-operations-counted", []string{"C05", "C06", "C09"}, true, fmt.Sprintf("%d blocking channel operations in package scheduler", nBlocking))
 	sink.Structural("scheduler", "frame", "go-statements-counted", []string{"C03", "C06"}, nGo == 4, fmt.Sprintf("%d go statements in package scheduler (spawner, loop, worker in the spawner, successor in worker$1)", nGo))
 	var keys []string
 	for k := range acc {
